@@ -66,6 +66,11 @@ PIPES = {
            {"correct_tip_offset": {"method": "fit_line_polynomial"}}),
     "P9": ([TIP, "correct_force_offset", "correct_tip_offset"],
            {"correct_tip_offset": {"method": "deviation_from_baseline"}}),
+    # smoothing after differently treated tip positions (same segmentation)
+    "P10": ([TIP, "correct_tip_offset", "smooth_height"], {}),
+    "P11": ([TIP, "correct_tip_offset", "smooth_height"],
+            {"correct_tip_offset": {"method": "gradient_zero_crossing"}}),
+    "P12": ([TIP, "smooth_height"], {}),
 }
 BADPIPES = {
     "B1": ([TIP, "bogus_step"], {}),                       # unknown, last
@@ -531,6 +536,11 @@ SLICES = {
     "poc": dict(pipes=["P0", "P6", "P7", "P8", "P9"], badpipes=["B3"],
                 keys={"model_key": ["m_para"]},
                 raters=[], mutate_pl=True, fitpre1=False),
+    # a step whose input is another step's output: every pair of pipelines
+    # that feed it differently
+    "smooth": dict(pipes=["P0", "P5", "P10", "P11", "P12"], badpipes=["B2"],
+                   keys={"model_key": ["m_para"]},
+                   raters=[], mutate_pl=False, fitpre1=False),
     "rate2": dict(pipes=["P0", "P1"], badpipes=[],
                   keys={"model_key": ["m_para", "m_bad"]},
                   raters=["R_svr", "R_svr_ldaF", "R_svrl", "R_svrl_ldaF",
